@@ -138,6 +138,9 @@ class QueryResult:
         return f"<{self.name}: {self.verdict} {self.secs:.2f}s>"
 
 
+CURRENT = None  # the session of the task running in this worker process (set by framework._run_task)
+
+
 class Session:
     def __init__(self, prop, timeout_ms=20000, cross_fraction=0.0):
         self.prop = prop
